@@ -1,3 +1,4 @@
+import Firebolt.TransExpected
 import Firebolt.Properties.TransBase
 import Firebolt.Properties.C01
 import Firebolt.Properties.ExecCompose
@@ -144,30 +145,16 @@ a rewrite that preserves the behaviour keeps them provable, a changed comparison
 section Translated
 open Firebolt.MiniGo Firebolt.TransBase
 
-/-- what a worker does at the end of its node's input -/
-def cascadeCalls (σ : Env) : List (String × List Int) :=
-  [("node.WaitGroup.Done", []), ("node.WaitGroup.Wait", []), ("node.ShutdownOnce.Do", [])] ++
-  (if σ "node.ShutdownOnce.Do#0" ≠ 0 then
-    [("shutDownNode", []), ("foreach node.Children: close", [σ "child.Ch"])] ++
-    (if σ "node.ErrorHandler" ≠ 0 then [("close", [σ "node.ErrorHandler.Ch"])] else [])
-   else [])
-
 /-- one round of a worker's loop in runNode, translated from the source.  A stop signal shuts the node down and ends the
 worker.  An event is processed.  At the end of the input (`!ok`) the worker announces itself done, **waits for all workers
 of the node**, and then exactly the one caller that sync.Once admits runs the node's Shutdown, **after that** closes every
 child's input, and after that the error handler's — then the worker ends.  This is the cascade order of the statement, read
 off the code for every environment. -/
 theorem translated_runNodeBody (σ : Env) (hs : σ "select#0" = 0 ∨ σ "select#0" = 1) :
-    obs Trans.exRunNodeBody σ =
-      if σ "select#0" = 0 then
-        ⟨[("select", [σ "node.StopCh", σ "node.Ch"]), ("shutDownNode", [])], some [], false⟩
-      else if σ "recv node.Ch#1" = 0 then
-        ⟨[("select", [σ "node.StopCh", σ "node.Ch"]), ("recv node.Ch", [])] ++ cascadeCalls σ, some [], false⟩
-      else
-        ⟨[("select", [σ "node.StopCh", σ "node.Ch"]), ("recv node.Ch", []), ("node.ProcessEvent", [σ "&event"])], none, false⟩ := by
+    obs Trans.exRunNodeBody σ = TransExpected.exRunNodeBody σ := by
   rcases hs with h | h <;> by_cases h1 : σ "recv node.Ch#1" = 0 <;> by_cases h2 : σ "node.ShutdownOnce.Do#0" = 0 <;>
   by_cases h3 : σ "node.ErrorHandler" = 0 <;>
-  minigo_simp [Trans.exRunNodeBody, cascadeCalls, h, h1, h2, h3]
+  minigo_simp [Trans.exRunNodeBody, TransExpected.exRunNodeBody, TransExpected.cascadeCalls, h, h1, h2, h3]
 
 /-- no event is processed in a round that sees the end of the input, and Shutdown is only ever reached through the stop
 signal or through sync.Once after the wait for all workers -/
@@ -178,7 +165,7 @@ theorem translated_shutdown_after_wait (σ : Env) (hs : σ "select#0" = 1) :
         "node.ProcessEvent" ∉ cs) := by
   rw [translated_runNodeBody σ (Or.inr hs)]
   by_cases h1 : σ "recv node.Ch#1" = 0 <;> by_cases h2 : σ "node.ShutdownOnce.Do#0" = 0 <;>
-  by_cases h3 : σ "node.ErrorHandler" = 0 <;> simp [hs, h1, h2, h3, cascadeCalls]
+  by_cases h3 : σ "node.ErrorHandler" = 0 <;> simp [TransExpected.exRunNodeBody, TransExpected.cascadeCalls, hs, h1, h2, h3]
   · exact ⟨["select", "recv node.Ch", "node.WaitGroup.Done"], ["foreach node.Children: close"], by simp⟩
   · exact ⟨["select", "recv node.Ch", "node.WaitGroup.Done"], ["foreach node.Children: close", "close"], by simp⟩
 
